@@ -761,6 +761,12 @@ def compile_shapes():
         shapes.append({'name': 'CtxShape%d' % i, 'items': [('errortype',), R('simple', c('a'), cx), R('simple', ('any',))]})
     # repeated characters in sets, large built-ins, many rule sets
     shapes.append({'name': 'RepSet', 'items': [('errortype',), R('simple', gen_defs.set_('a', 'a', 'b', ('a', 'c'), 'b'))]})
+    # nested postfix operators (each combination allocates and links its loop/option states differently)
+    a_, b_ = c('a'), c('b')
+    nest = [('opt', ('star', a_)), ('star', ('opt', a_)), ('opt', ('plus', a_)), ('plus', ('opt', a_)), ('star', ('star', a_)), ('opt', ('opt', a_)), ('plus', ('star', a_)),
+            ('star', ('plus', a_)), ('opt', ('alt', ('star', a_), b_)), ('star', ('cat', ('opt', a_), ('opt', b_))), ('alt', ('opt', a_), ('opt', a_)), ('cat', ('opt', ('star', a_)), ('opt', ('star', a_)))]
+    for i, r_ in enumerate(nest):
+        shapes.append({'name': 'PostfixNest%d' % i, 'items': [('errortype',), R('simple', ('cat', c('<'), ('cat', r_, c('>')))), R('simple', ('any',))]})
     shapes.append({'name': 'ManySets', 'items': [('errortype',)] + [('ruleset', 'Init' if i == 0 else 'S%d' % i, [R('infallible', c(chr(97 + i))), R('simple', ('bi', 'XID_Continue'))]) for i in range(6)]})
     return shapes, extra
 
@@ -1374,6 +1380,17 @@ def mutate_illformed(d, rng):
                                    ('diff', ('alt', ('any',), bad), ('chr', 98))]):
                 out.append(('diff_operand@%d.%d' % (k, j), with_items(items[:i] + [('rule', it[1], ('alt', w, it[2]), it[3])] + items[i + 1:])))
         out.append(('mixed', with_items(items + [('ruleset', 'Init', [('rule', 'simple', ('chr', 97), None)])])))
+        # exactly ONE unnamed rule (of several syntactic shapes) before, between and after rule sets
+        rs_a = ('ruleset', 'Init', [('rule', 'simple', ('chr', 98), None)])
+        rs_b = ('ruleset', 'Other', [('rule', 'simple', ('chr', 99), None)])
+        hdr = [x for x in items if x[0] == 'errortype']
+        for k, one in enumerate([('chr', 97), ('str', [97, 98]), ('set', [('r', 97, 99)]), ('any',), ('cat', ('chr', 97), ('chr', 100)), ('alt', ('chr', 97), ('chr', 100)),
+                                 ('star', ('chr', 97)) if False else ('plus', ('chr', 97)), ('bi', 'ascii_digit')]):
+            lone = ('rule', 'simple', one, None)
+            out.append(('mixed_one_before@%d' % k, with_items(hdr + [lone, rs_a, rs_b])))
+            if k < 3:
+                out.append(('mixed_one_between@%d' % k, with_items(hdr + [rs_a, lone, rs_b])))
+                out.append(('mixed_one_after@%d' % k, with_items(hdr + [rs_a, rs_b, lone])))
         out.append(('dup_var', with_items([items[0], ('let', 'dupv', ('chr', 97)), ('let', 'dupv', ('chr', 98))] + items[1:])))
     if sets:
         k = rng.randrange(len(sets))
